@@ -49,6 +49,9 @@ func main() {
 	list := flag.Bool("list", false, "list registered properties")
 	mut := flag.String("mutant", "", "run a single mutant by name (debug)")
 	manifest := flag.Bool("manifest", false, "write MANIFEST.json from the registered properties")
+	baseline := flag.Bool("baseline", false, "write checker/baseline_funcs.txt: the functions of the current tree (the reference for new-helper detection)")
+	flag.BoolVar(&inlineDisabled, "noinline", false, "debug: do not analyse new helpers as part of their callers")
+	anchors := flag.Bool("anchors", false, "debug: check that every self-test mutant's anchor text occurs exactly once")
 	flag.StringVar(&repoDir, "repo", "/repo", "repository root")
 	flag.StringVar(&verifDir, "verif", "/verif", "verification root")
 	goos := flag.String("goos", "linux", "")
@@ -89,6 +92,27 @@ func main() {
 	}
 	if *mut != "" {
 		os.Exit(runOneMutant(*mut))
+	}
+	if *baseline {
+		if err := writeBaseline(); err != nil {
+			fmt.Println(err)
+			os.Exit(2)
+		}
+		return
+	}
+	if *anchors {
+		bad := 0
+		for _, m := range mutants {
+			if _, err := applyMutant(m); err != nil {
+				fmt.Println(m.Prop, err)
+				bad++
+			}
+		}
+		fmt.Printf("%d mutants, %d stale anchors\n", len(mutants), bad)
+		if bad > 0 {
+			os.Exit(1)
+		}
+		return
 	}
 	var ids []string
 	if *prop == "all" {
